@@ -5,6 +5,7 @@ The numeric kernels are parameters: `step : W → S → W` (one multislice step 
 slice: `conventional_multislice_step` / `realspace_multislice_step`), `detect : W → M`
 (`detector.detect`).  The Python control flow is mirrored literally:
 
+  waves = waves.ensure_real_space(); incident_waves = waves; waves = waves.copy()                      → `ensureReal`
   for i, (potential_index, configuration) in enumerate(_generate_potential_configurations(potential)):  → `configLoop`
       if i > 0: waves = incident_waves.copy()
       exit_plane_index = 0
@@ -102,6 +103,16 @@ def multisliceAndDetect (step : W → S → W) (detect : W → M) (w0 : W) (p : 
       .ok (.final (if p.ensAxis then [1] else []) (detect r.1))
     else .ok (.table shape r.2)
 
+/-- `waves = waves.ensure_real_space()` at the entry of `multislice_and_detect`: waves handed over in reciprocal space
+(`recip`) are transformed once (`toReal` = the inverse FFT, uninterpreted); real-space waves are used as they are. -/
+def ensureReal (toReal : W → W) (recip : Bool) (w : W) : W := if recip then toReal w else w
+
+/-- `multislice_and_detect` from its entry: the wave every configuration starts from (`incident_waves`) is the wave
+*after* `ensure_real_space()`, whatever representation the caller handed over. -/
+def multisliceAndDetectFrom (step : W → S → W) (detect : W → M) (toReal : W → W) (recip : Bool) (w : W) (p : Pot S) :
+    Except String (Out M) :=
+  multisliceAndDetect step detect (ensureReal toReal recip w) p
+
 /-- final content of the measurement array at ensemble index `idx` (`none` = never written = zeros) -/
 def Out.get : Out M → List Nat → Option M
   | .table _ writes, idx => (writes.reverse.find? (fun wr => wr.1 == idx)).map (·.2)
@@ -116,5 +127,7 @@ a wave is the list of slice identifiers applied to it, detection returns it unch
 abbrev Hist := List Nat
 def hstep (w : Hist) (s : Nat) : Hist := w ++ [s]
 def hdetect (w : Hist) : Hist := w
+/-- the free instance of the representation change: marker `0` (slice identifiers are positive) -/
+def htoReal (w : Hist) : Hist := w ++ [0]
 
 end AbtemVerif.Multislice
